@@ -694,7 +694,9 @@ class SimSocket:
         s.tick()
 
     def detach(self):
-        raise SeamLeak("socket.detach is not modelled")
+        # hand the descriptor number over (gevent's patch() re-wraps it); the descriptor itself stays open
+        s, t, p, o = self._o()
+        return self.fd
 
     def setsockopt(self, *a):
         self._o()
